@@ -10,6 +10,7 @@ package crl
 //@ import "time"
 //@ import "github.com/notaryproject/notation-core-go/revocation/crl"
 //@ import "github.com/notaryproject/notation-core-go/revocation/result"
+//@ import "github.com/notaryproject/notation-core-go/revocation/internal/x509util"
 
 // ---- the entries of a bundle: base entries and (if present) delta entries. The statement's semantics does not
 // depend on list order (hold/remove is resolved by revocation time), so clauses quantify over each list separately.
@@ -89,3 +90,66 @@ package crl
 //@     invariant jump$2 == 0 && b.DeltaCRL != nil
 //@     invariant Scanned(BaseEntries(b), NB(b), cert, signingTime) && Scanned(DeltaEntries(b), it, cert, signingTime)
 //@     invariant LatestOK(b, NB(b), it, latestTempRevokedEntry, cert, signingTime)
+
+// ================= C05: validation of a bundle against the issuer
+
+// stmt C05: "a CRL ... whose signature verifies under the issuer's key (the issuer being allowed to sign CRLs), whose
+// next-update is present and not passed, which carries no unknown critical extension at list ... level"
+//@ stmt spec func CRLValid(l *x509.RevocationList, iss *x509.Certificate) bool {
+//@     CRLSigned(l, iss) && CRLIssuerUsable(iss) &&
+//@     !l.NextUpdate.IsZero() && !time.Now().After(l.NextUpdate) &&
+//@     (forall k :: 0 <= k && k < len(l.Extensions) ==> (l.Extensions[k].Critical ==>
+//@          l.Extensions[k].Id.Equal(oidIssuingDistributionPoint) || l.Extensions[k].Id.Equal(oidDeltaCRLIndicator))) }
+// the delta indicator extension of a CRL (nil when absent), located by the repository's own helper
+//@ spec func Indicator(l *x509.RevocationList) *pkix.Extension { x509util.FindExtensionByOID$(l.Extensions, oidDeltaCRLIndicator) }
+// stmt C05: "when a delta CRL accompanies it - the delta is equally authentic and current, has a larger CRL number than
+// the base and a delta indicator not above the base's number"
+//@ stmt spec func BundleValid(b *crl.Bundle, iss *x509.Certificate) bool {
+//@     CRLValid(b.BaseCRL, iss) &&
+//@     (b.DeltaCRL != nil ==> CRLValid(b.DeltaCRL, iss) &&
+//@          b.DeltaCRL.Number != nil && b.BaseCRL.Number != nil && bigval(b.DeltaCRL.Number) > bigval(b.BaseCRL.Number) &&
+//@          Indicator(b.DeltaCRL) != nil && AsnIntOK(Indicator(b.DeltaCRL).Value) && AsnIntVal(Indicator(b.DeltaCRL).Value) <= bigval(b.BaseCRL.Number)) }
+
+//@ func validateCRL(crl, issuer)
+//@   requires crl != nil && issuer != nil
+//@   ensures [iff] result == nil <==> CRLValid(crl, issuer)
+//@   loop 0
+//@     invariant forall k :: 0 <= k && k < it ==> (crl.Extensions[k].Critical ==> crl.Extensions[k].Id.Equal(oidIssuingDistributionPoint) || crl.Extensions[k].Id.Equal(oidDeltaCRLIndicator))
+//@   pure
+
+//@ func validate(bundle, issuer)
+//@   requires bundle != nil && bundle.BaseCRL != nil && issuer != nil
+//@   ensures [iff] result == nil <==> BundleValid(bundle, issuer)
+
+//@ func Supported(cert)
+//@   ensures [def] result <==> (cert != nil && len(cert.CRLDistributionPoints) > 0)
+//@   pure
+
+// Contract every crl.Fetcher is assumed to meet (caller-supplied component; the repository's HTTPFetcher is proved to
+// meet it, see revocation/crl): a successful fetch returns a bundle with a base CRL whose entries carry serial numbers
+// (as produced by x509.ParseRevocationList).
+//@ interface func (crl.Fetcher).Fetch(f, ctx, url)
+//@   logged
+//@   ensures err == nil ==> result != nil && BundleShape(result)
+//@   ensures err != nil ==> ExternalDyn(typeof(err)) || true
+
+// stmt C05 (and C12 shape): per-distribution-point evidence, all points consulted, first failure decides
+//@ func CertCheckStatus(ctx, cert, issuer, opts)
+//@   props C05 C06 C12
+//@   requires issuer != nil
+//@   requires cert != nil ==> cert.SerialNumber != nil
+//@   ensures [fresh] result != nil && fresh(result) && result.RevocationMethod == result.RevocationMethodCRL
+//@   ensures [unsupported] !Supported$(cert) ==> result.Result == result.ResultNonRevokable && len(result.ServerResults) == 1 && ncalls(Fetcher.Fetch) == 0
+//@   ensures [class] Supported$(cert) ==> (result.Result == result.ResultOK || result.Result == result.ResultUnknown || result.Result == result.ResultRevoked)
+//@   ensures [ok=>all-points-ok] result.Result == result.ResultOK ==> opts.Fetcher != nil && len(result.ServerResults) == len(cert.CRLDistributionPoints) && ncalls(Fetcher.Fetch) == len(cert.CRLDistributionPoints) && (forall k :: 0 <= k && k < len(cert.CRLDistributionPoints) ==> result.ServerResults[k] != nil && result.ServerResults[k].Result == result.ResultOK && result.ServerResults[k].Server == cert.CRLDistributionPoints[k] && result.ServerResults[k].Error == nil)
+//@   ensures [revoked=>single] result.Result == result.ResultRevoked ==> len(result.ServerResults) == 1 && result.ServerResults[0] != nil && result.ServerResults[0].Result == result.ResultRevoked
+//@   ensures [unknown=>single-error] result.Result == result.ResultUnknown ==> len(result.ServerResults) == 1 && result.ServerResults[0] != nil && result.ServerResults[0].Result == result.ResultUnknown && result.ServerResults[0].Error != nil
+//@   ensures [unknown=>names-failing-url] (result.Result == result.ResultUnknown && opts.Fetcher != nil) ==> exists k :: 0 <= k && k < len(cert.CRLDistributionPoints) && result.ServerResults[0].Server == cert.CRLDistributionPoints[k]
+//@   ensures [nonrevokable=>unsupported] result.Result == result.ResultNonRevokable ==> !Supported$(cert)
+// the evidence behind every OK server result, tied to the iteration that produced it
+//@   assert before call append#0: [evidence] opts.Fetcher != nil && lastarg(Fetcher.Fetch, 2) == crlURL && lastret(Fetcher.Fetch, 0) == bundle && lastret(Fetcher.Fetch, 1) == nil && BundleValid(bundle, issuer) && ((x509util.FindExtensionByOID$(cert.Extensions, oidFreshestCRL) != nil) ==> bundle.DeltaCRL != nil) && err == nil && crlResult != nil && crlResult.Result == result.ResultOK && crlResult.Server == crlURL
+//@   loop 0
+//@     invariant cert != nil && opts.Fetcher != nil && lastErr == nil
+//@     invariant len(serverResults) == it && ncalls(Fetcher.Fetch) == it
+//@     invariant hasFreshestCRLInCertificate <==> (x509util.FindExtensionByOID$(cert.Extensions, oidFreshestCRL) != nil)
+//@     invariant forall k :: 0 <= k && k < it ==> serverResults[k] != nil && serverResults[k].Result == result.ResultOK && serverResults[k].Server == cert.CRLDistributionPoints[k] && serverResults[k].Error == nil
